@@ -52,8 +52,7 @@ theorem Pc.excl_of_cntW : ∀ {p : Pc}, p.isCntW = true → p.isExcl = true := b
 theorem Pc.uLock_of_passUnl : ∀ {p : Pc}, p.isPassUnl = true → p.isULock = true := by pc_cases
 theorem Pc.not_excl_of_passUnl : ∀ {p : Pc}, p.isPassUnl = true → p.isExcl = false := by pc_cases
 theorem Pc.cntW_or_needW : ∀ {p : Pc}, p.isExcl = true → p.isCntW = true ∨ p.isNeedW = true := by pc_cases
-theorem Pc.of_isURunW {p : Pc} (h : p.isURunW = true) : ∃ n, p = .uRunW n := by
-  cases p <;> simp_all [Pc.isURunW]
+theorem Pc.of_isURunW : ∀ {p : Pc}, p.isURunW = true → ∃ n, p = .uRunW n := by pc_cases
 
 structure Inv (cfg : Cfg) (s : State) : Prop where
   hcfg : s.cfg = cfg
@@ -73,6 +72,7 @@ structure Inv (cfg : Cfg) (s : State) : Prop where
   l_wrun_t : ∀ c n, s.pc c = .uRunW n → s.excl = some n ∧ s.pc n = .wgranted
   l_wgranted : ∀ n, s.pc n = .wgranted → s.wrun ≠ none
   wrun_w : s.wrun ≠ none → ∀ c, (s.pc c).isExcl = true → s.pc c = .wgranted
+  wrun_excl : s.wrun ≠ none → s.excl ≠ none
   l_pend : ∀ c, (s.pc c).isPassUnl = true ↔ s.pendBy = some c
   l_ew_some : ∀ c, s.excl = some c → s.ew = if (s.pc c).isCntW then 1 else 0
   l_ew_none : s.excl = none → s.ew = 0
@@ -151,8 +151,48 @@ theorem length_pos_of_ne_nil {α : Type} {l : List α} (h : l ≠ []) : 1 ≤ l.
   | nil => exact absurd rfl h
   | cons a t => simp
 
+theorem mem_iff_of_count {l : List Cid} {x : Cid} {P : Prop} [Decidable P] (h : l.count x = if P then 1 else 0) :
+    x ∈ l ↔ P := by
+  by_cases hp : P
+  · rw [if_pos hp] at h
+    exact ⟨fun _ => hp, fun _ => List.count_pos_iff.mp (by omega)⟩
+  · rw [if_neg hp] at h
+    exact ⟨fun hm => absurd (List.count_pos_iff.mpr hm) (by omega), fun hq => absurd hq hp⟩
+
+theorem count_cons' (a x : Cid) (l : List Cid) : (a :: l).count x = l.count x + if a = x then 1 else 0 := by
+  rw [List.count_cons]; by_cases h : a = x <;> simp [h]
+
+/-- the holder of the spinlock is not a departing writer with pending pass credits ⇒ nobody is -/
+theorem pendBy_none_of_held {cfg s} (hi : Inv cfg s) {c : Cid} (hs : s.spin = .held c)
+    (hp : (s.pc c).isPassUnl = false) : s.pendBy = none := by
+  cases hb : s.pendBy with
+  | none => rfl
+  | some x =>
+      have h1 := (hi.l_pend x).mpr hb
+      have h2 := (hi.l_held x).mp (Pc.held_of_passUnl h1)
+      rw [hs] at h2
+      cases h2
+      rw [hp] at h1; cases h1
+
+theorem head_pc_wq {cfg s} (hi : Inv cfg s) {n : Cid} {rest : List Cid} (hq : s.WQ = n :: rest) :
+    s.pc n = .wparkedQ ∧ rest.count n = 0 := by
+  have := hi.l_wq n
+  rw [hq, count_cons'] at this
+  by_cases hpn : s.pc n = .wparkedQ
+  · simp [hpn] at this; exact ⟨hpn, this⟩
+  · simp [hpn] at this
+
+theorem head_pc_torun {cfg s} (hi : Inv cfg s) {n : Cid} {rest : List Cid} (hq : s.torun = n :: rest) :
+    s.pc n = .rgranted ∧ rest.count n = 0 := by
+  have := hi.l_torun n
+  rw [hq, count_cons'] at this
+  by_cases hpn : s.pc n = .rgranted
+  · simp [hpn] at this; exact ⟨hpn, this⟩
+  · simp [hpn] at this
+
+
 macro "sm_simp" : tactic =>
-  `(tactic| (simp only [done, doRdFadd, lockedPc, doSpinOk, doRdUnlock, doEnter, doRdFsub, doRwFsub, doRunWriter, doTryFail,
+  `(tactic| (simp only [done, doRdFadd, lockedPc, doSpinOk, doRdUnlock, doEnter, doRdFsub, doRwFsub, doRunWriter, doRunFirst, doTryFail,
       doTrCasOk, failW, doTwLoad, doTwCasOk, doWrFadd, doWrPost, doWUnlock, doWuCasOk, doWuFsub, doRwStore, releaseReaders,
       doUUnlock, doRunR, upd, PW.isSome_none, PW.isSome_a, PW.isSome_b, PW.isSome_c, PW.who_none, PW.who_a, PW.who_b, PW.who_c,
       PW.by_none, PW.by_a, PW.by_b, PW.by_c, PW.isAB_none, PW.isAB_a, PW.isAB_b, PW.isAB_c,
@@ -169,7 +209,7 @@ macro "sm_grind" "[" ts:Lean.Parser.Tactic.grindParam,* "]" : tactic =>
         PW.who_b, PW.who_c, PW.by_none, PW.by_a, PW.by_b, PW.by_c, PW.isAB_none, PW.isAB_a, PW.isAB_b, PW.isAB_c, length_pos_of_ne_nil]
     | grind [Pc.isAR, Pc.isIFL, Pc.isExcl, Pc.isCntW, Pc.isHeld, Pc.isParked, Pc.isInRound, Pc.isStoredUnl, Pc.isPassUnl,
         Pc.isULock, Pc.isURunW, Pc.isNeedW, PW.isSome_none, PW.isSome_a, PW.isSome_b, PW.isSome_c, PW.who_none, PW.who_a,
-        PW.who_b, PW.who_c, PW.by_none, PW.by_a, PW.by_b, PW.by_c, PW.isAB_none, PW.isAB_a, PW.isAB_b, PW.isAB_c, erase_count_self, erase_count_ne]
+        PW.who_b, PW.who_c, PW.by_none, PW.by_a, PW.by_b, PW.by_c, PW.isAB_none, PW.isAB_a, PW.isAB_b, PW.isAB_c, erase_count_self, erase_count_ne, count_cons']
     | grind [Pc.isAR, Pc.isIFL, Pc.isExcl, Pc.isCntW, Pc.isHeld, Pc.isParked, Pc.isInRound, Pc.isStoredUnl, Pc.isPassUnl,
         Pc.isULock, Pc.isURunW, Pc.isNeedW, PW.isSome_none, PW.isSome_a, PW.isSome_b, PW.isSome_c, PW.who_none, PW.who_a,
         PW.who_b, PW.who_c, PW.by_none, PW.by_a, PW.by_b, PW.by_c, PW.isAB_none, PW.isAB_a, PW.isAB_b, PW.isAB_c, Pc.held_of_passUnl, Pc.held_of_storedUnl, Pc.held_of_uLock, Pc.held_of_needW, Pc.excl_of_needW, PW.eq_none_of_isSome, PW.isSome_of_ne]
